@@ -8,6 +8,8 @@ CONSTANTS
   Decors = {"none", "dangling", "wrong", "null", "direct"}
   DecorMod = 8
   FunMod = 24
+  OutTrees = {12, 13, 22, 23}
+  OutTreeMod = 16
   OutlineNs = {1, 2}
   Outline1Mod = 1
   OutlineMod = 16
